@@ -174,15 +174,17 @@ def setup_percent(it, cfg):
 
 REGISTRY.add(Contract(
     "C13", INIT, "Process.memory_percent", setup=setup_percent, env=ENV,
-    configs=[{"memtype": m, "cached_total": c} for m in ("rss", "vms", "dirty", "uss", "pss", "swap", "bogus", "RSS")
+    configs=[{"memtype": m, "cached_total": c}
+             for m in ("rss", "vms", "dirty", "uss", "pss", "swap", "bogus", "RSS", "count", "index", "_fields", "_asdict", "")
              for c in (True, False)],
     ensures=[
         "implies(memtype in ('rss', 'vms', 'dirty'), result * total == 100 * getattr(mem, memtype) and log == [('memory_info',)])",
         "implies(memtype in ('uss', 'pss', 'swap'), result * total == 100 * getattr(full, memtype) and log == [('memory_full_info',)])",
         "total > 0",
     ],
-    raises={"ValueError": ["memtype in ('bogus', 'RSS') or not (total > 0)",
-                           "implies(memtype in ('bogus', 'RSS'), len(log) == 0)"]},       # rejected before any query
+    # names that are attributes of the tuple class but not fields ('count', 'index', '_fields', ...) are unknown too
+    raises={"ValueError": ["memtype in ('bogus', 'RSS', 'count', 'index', '_fields', '_asdict', '') or not (total > 0)",
+                           "implies(memtype in ('bogus', 'RSS', 'count', 'index', '_fields', '_asdict', ''), len(log) == 0)"]},
     canaries=["result == 0 - 1"], replay=None,
     note="100 * field / total physical memory; unknown field names rejected with ValueError before querying"))
 
